@@ -123,6 +123,33 @@ theorem datetime_roundtrip (d : Date) (t : Time) (tz : Tz) (hd : d.valid = true)
     (htz : TzOK tz) : parseDateTime (isoDateTime d t tz) = .ok (d, t, normTz tz) :=
   Suds.Xsd.datetime_roundtrip d t tz hd ht htz
 
+/-- **What is accepted as a date has the XSD shape** `digits - d{1,2} - d{1,2} rest`: the scanner's
+match is literally a prefix of the text. -/
+theorem accepted_date_shape (s : List Char) (dm : DateM) (rest : List Char) (h : scanDate s = some (dm, rest)) :
+    s = dm.year ++ '-' :: (dm.month ++ '-' :: (dm.day ++ rest)) ∧ dm.year ≠ [] ∧
+    (∀ c ∈ dm.year, isDigit c = true) ∧ (∀ c ∈ dm.month, isDigit c = true) ∧ (∀ c ∈ dm.day, isDigit c = true) ∧
+    (dm.month.length = 1 ∨ dm.month.length = 2) ∧ (dm.day.length = 1 ∨ dm.day.length = 2) :=
+  scanDate_shape s dm rest h
+
+/-- A text without a '-' is no date: `20131119`, `2013W472` and the like are rejected as malformed. -/
+theorem parseDate_needs_dashes (s : List Char) (h : '-' ∉ s) : parseDate s = .error .format := by
+  unfold parseDate
+  split
+  · rename_i dm rest hs
+    have := (scanDate_shape s dm rest hs).1
+    exfalso; apply h; rw [this]; simp
+  · rfl
+
+theorem parseDateTime_needs_dashes (s : List Char) (h : '-' ∉ s) : parseDateTime s = .error .format := by
+  unfold parseDateTime
+  split
+  · rename_i dm c rest hs
+    have := (scanDate_shape s dm _ hs).1
+    exfalso; apply h; rw [this]; simp
+  · rfl
+
+example : parseDate "20131119".toList = .error .format := parseDate_needs_dashes _ (by decide)
+
 /-- The digits written for a number denote it, whatever the padding. -/
 theorem padded_digits_denote (n w : Nat) : natOf (pad n w) = n ∧ ∀ c ∈ pad n w, isDigit c = true :=
   ⟨natOf_pad n w, digits_pad n w⟩
